@@ -716,9 +716,14 @@ func c11SmallCacheRelay(w *core.WorkerCtx, rng *rand.Rand) {
 // goroutines, so the run is repeated with one, two and all processors.
 func c11Burst(w *core.WorkerCtx, rng *rand.Rand) {
 	r := w.R
-	for gi, procs := range []int{1, 2, 0} {
-		t := []topo{smallTopos[len(smallTopos)-1], smallTopos[1], smallTopos[len(smallTopos)-1]}[gi]
+	for gi, procs := range []int{1, 2, 0, 0} {
+		t := []topo{smallTopos[len(smallTopos)-1], smallTopos[1], smallTopos[len(smallTopos)-1], smallTopos[1]}[gi]
+		if gi == 3 {
+			// a hand-over pipe of four slots and bursts of three times as many items: more is waiting than the pipe holds
+			vnet.PipeSlots = 4
+		}
 		net, err := vnet.Build(t.k, t.adj, -1)
+		vnet.PipeSlots = 100
 		if err != nil {
 			r.Inconc("cannot build network: " + err.Error())
 			return
@@ -733,6 +738,9 @@ func c11Burst(w *core.WorkerCtx, rng *rand.Rand) {
 			o := net.Nodes[origin]
 			var items []c11Item
 			burst := 3 + rng.Intn(4)
+			if gi == 3 {
+				burst = 12
+			}
 			kind := []string{"trx", "vrx"}[round%2]
 			if kind == "trx" {
 				for i := 0; i < burst; i++ {
